@@ -43,7 +43,8 @@ def prehistory(rng, hist, vers):
 
 # directed pre-histories: the late backup stores exactly a forgotten version again, so it adds no data of its own and
 # everything it needs lives in packs the concurrent prune marks (added after seeded change C10-recover-index-not-rewritten)
-DIRECTED = [[["backup", "v1"], ["forget", "v1"]],
+DIRECTED = [[["backup", "v1"], ["tick"], ["forget", "v1"]],      # packs older than keep-delete when the overlapping prune marks them
+            [["backup", "v1"], ["forget", "v1"]],
             [["backup", "v1"], ["backup", "v2"], ["forget", "v1"]],
             [["backup", "v1"], ["forget", "v1"], ["prune", False], ["backup", "v2"]]]
 
@@ -106,7 +107,7 @@ def run(ctx):
         hists = rng.sample(marked, 8) + rng.sample(plain, 4)
         gates = list(range(0, 40))
         pairs = [(rng.randint(0, 30), rng.randint(0, 35)) for _ in range(40)]
-    hists = hists + (DIRECTED[:2] if q else DIRECTED)
+    hists = hists + (DIRECTED[:3] if q else DIRECTED)
     progs = schedule_programs(ctx, rng, hists, gates, pairs)
     by_id = {p["id"]: p for p in progs}
     recs, r = run_trace(ctx, progs, "main", timeout=9000)
